@@ -8,11 +8,11 @@ from pbt.runner import Violation, hyp_search
 
 LEVEL = 'fault_enumeration'
 SHARDS = {'quick': 8, 'thorough': 16}
-RULE = ('Hypothesis generates sequential programs (instance and class-level operations, handlers, sleeps of 0-3 ms, recording '
+RULE = ('Hypothesis generates sequential programs (instance and class-level operations, also run on a subclass of the class that carries the recording parameters, handlers, sleeps of 0-3 ms, recording '
         'switched off / on again in the middle of the operation, a call of another decorated operation of the same recorder '
         'which is refused while a recording runs); the '
         'harness enumerates every termination mode at every step - return, ordinary exception, interrupt-style '
-        'BaseException, raised by the operation between steps or inside an intercepted input/output body, incl. after '
+        'BaseException (a custom one, SystemExit with and without code 0, KeyboardInterrupt), raised by the operation between steps or inside an intercepted input/output body, incl. after '
         'outputs were captured - crossed with metadata extractors that succeed, raise or return junk (None, int, list), '
         'with slow save / slow extractor to separate the duration from later work, invoked from plain code or from inside '
         'an except block of the caller (ordinary and interrupt-style), on a fresh recorder or on one that recorded (and '
@@ -29,7 +29,8 @@ ASSUMPTIONS = ['time.time()/utcnow() read by harness and recorder are the same n
                'sampling rate 1 and no discards so that every run is saved']
 
 T = __import__('playback.tape_recorder', fromlist=['TapeRecorder'])
-KINDS = ('body_raise', 'body_interrupt', 'body_interrupt_swallowed', 'op_raise', 'op_interrupt', 'extractor', 'body_force')
+KINDS = ('body_raise', 'body_interrupt', 'body_interrupt_swallowed', 'op_raise', 'op_interrupt', 'op_exit0', 'op_exit',
+         'op_ctrl_c', 'extractor', 'body_force')
 EPS = 0.002
 
 
@@ -138,14 +139,14 @@ def nontrivial(prog, faults):
             return True
         if f['kind'] in ('body_raise', 'body_interrupt'):
             return True
-        if f['kind'] in ('op_raise', 'op_interrupt') and f['at'] >= 2:
+        if f['kind'] in ('op_raise', 'op_interrupt', 'op_exit0', 'op_exit', 'op_ctrl_c') and f['at'] >= 2:
             return True
     return False
 
 
 def enumerate_case(ctx, base):
     prog = base['prog']
-    for fl in FR.placements(ctx, prog, base['pair_seed'], kinds=KINDS):
+    for fl in FR.placements(ctx, prog, base['pair_seed'], kinds=KINDS, extra=('exits',)):
         case = dict(base, faults=fl)
         case.pop('pair_seed')
         try:
@@ -155,7 +156,8 @@ def enumerate_case(ctx, base):
             raise
         ctx.case(case, nontrivial(prog, fl), classes=tuple('fault:' + f['kind'] + (':' + f['mode'] if 'mode' in f else '')
                                                           for f in fl) + (
-            'ends:' + eff['terminated'], 'caller:' + str(base.get('within_handler')), 'prior:' + str(base.get('prior')), 'klass:' + prog.get('klass', 'instance'), 'cassette:' + base['cassette']))
+            'ends:' + eff['terminated'], 'caller:' + str(base.get('within_handler')), 'prior:' + str(base.get('prior')), 'klass:' + prog.get('klass', 'instance'), 'derived' if prog.get('derived') else 'not-derived',
+            'cassette:' + base['cassette']))
 
 
 def replay(ctx, case):
@@ -177,6 +179,9 @@ def bases(draw):
         if draw(st.booleans()):
             prog['steps'].append({'t': 'toggle', 'on': True})
     PS.assign_sids(prog)
+    if draw(st.sampled_from([False, False, True])):
+        prog['derived'] = True       # the operation runs on a subclass of the class carrying the recording parameters
+        prog['params'] = draw(st.sampled_from([None, {'copy_data_on_intercepion': True}, {'sampling_rate': 1}]))
     return {'prog': prog, 'pair_seed': draw(st.integers(0, 10 ** 6)),
             'cassette': draw(st.sampled_from(['memory', 'memory', 'file', 's3'])),
             'within_handler': draw(st.sampled_from([None, None, 'exception', 'interrupt'])),
